@@ -334,3 +334,34 @@ Section rule_spec.
     exists lv1, lv2. repeat split; [exact L1|exact L2|]. apply H256_inj. congruence.
   Qed.
 End rule_spec.
+
+(* ---- the rule is a function of the CURRENT cost models of the languages used:
+   nothing else about the protocol parameters (their identity, their past
+   contents) can influence the verdict.  An implementation that is handed a
+   mutable parameter object may violate this by caching; that is checked by
+   the correspondence run on validation histories. *)
+Lemma views_of_ext cms cms' used : (forall v, In v used -> cms v = cms' v) ->
+  views_of cms used = views_of cms' used.
+Proof.
+  induction used as [|v r IH]; intros H; cbn [views_of]; [reflexivity|].
+  rewrite IH by (intros w Hw; apply H; right; exact Hw).
+  unfold view_of. rewrite (H v (or_introl eq_refl)). reflexivity.
+Qed.
+
+Lemma existsb_ext_in {A} (f g : A -> bool) l : (forall x, In x l -> f x = g x) -> existsb f l = existsb g l.
+Proof.
+  induction l as [|a r IH]; intros H; cbn [existsb]; [reflexivity|].
+  rewrite (H a (or_introl eq_refl)), IH; [reflexivity|]. intros x Hx. apply H. right. exact Hx.
+Qed.
+
+Lemma rule_current_cost_models H256 cms cms' t :
+  (forall v, In v (used_versions t) -> cms v = cms' v) ->
+  script_data_hash_rule H256 cms t = script_data_hash_rule H256 cms' t.
+Proof.
+  intros H. unfold script_data_hash_rule, encode_lang_views.
+  rewrite (views_of_ext cms cms' _ H).
+  rewrite (existsb_ext_in (fun v => match cms v with None => true | Some _ => false end)
+                          (fun v => match cms' v with None => true | Some _ => false end) (used_versions t))
+    by (intros v Hv; rewrite (H v Hv); reflexivity).
+  reflexivity.
+Qed.
